@@ -419,7 +419,7 @@ def check_coverage(logic):
 # frame rules under pysymex
 # ---------------------------------------------------------------------------
 
-def frame_exploration(logic, W, stats_out):
+def frame_exploration(logic, W, stats_out, bare=False):
     """All sets of access pairs over W worlds (symbolic booleans), real frame
     rules driven by the real step loop; result compared with the closure the
     frame condition requires."""
@@ -437,8 +437,9 @@ def frame_exploration(logic, W, stats_out):
         tab = Tableau(logic)
         branch = tab.branch()
         chosen = []
-        for w in range(W):
-            branch.append(sdwnode(Atomic(w, 0), d, w))
+        if not bare:
+            for w in range(W):
+                branch.append(sdwnode(Atomic(w, 0), d, w))
         for (i, j) in pairs:
             if SymBool(f'acc_{i}_{j}'):
                 branch.append(anode(i, j))
@@ -468,7 +469,9 @@ def frame_exploration(logic, W, stats_out):
         if nbranches != 1:
             bad.append(dict(chosen=chosen, why='frame rule branched'))
             continue
-        base = set(range(W))
+        # worlds that occur on the branch (all of them when every world carries
+        # a sentence; only those named by access nodes in the bare variant)
+        base = set(range(W)) if not bare else {w for p_ in chosen for w in p_}
         if frame == 'serial':
             # a successor for every world that carries a sentence; nothing else
             # but the chosen pairs and fresh-world successors
@@ -536,13 +539,14 @@ def logic_unit(arg):
     if logic.Meta.modal and spec.logic_info(name)['frame'] != 'none':
         Ws = (2, 3) if (thorough or name in FRAME_REPRESENTATIVES) else (2,)
         fr = dict(paths=0, bad=[], exhausted=True, decisions=0)
-        for W in Ws:
-            r = frame_exploration(logic, W, stats)
+        for W, bare in [(W_, False) for W_ in Ws] + ([(3, True)] if spec.logic_info(name)['frame'] != 'serial' else []):
+            r = frame_exploration(logic, W, stats, bare)
             fr['paths'] += r['paths']
             fr['decisions'] += r['decisions']
             fr['exhausted'] &= r['exhausted']
             for b_ in r['bad']:
                 b_['W'] = W
+                b_['bare'] = bare
                 fr['bad'].append(b_)
         out['frame'] = fr
     out['rules'] = sorted(out['rules'])
@@ -619,7 +623,7 @@ def run(ctx):
                     f'{name}: frame rules on access pairs {b_.get("chosen")} give '
                     f'{b_.get("got")} ({b_["why"]}; required {b_.get("want")})',
                     dict(kind='frame', logic=name, W=b_['W'], chosen=b_.get('chosen'),
-                         want=b_.get('want')))
+                         want=b_.get('want'), bare=b_.get('bare', False)))
     if notarget_rules:
         rep.harness_error(
             f'{len(notarget_rules)} rule classes never produced a target on any generated shape '
@@ -634,8 +638,9 @@ def run(ctx):
         bounds=dict(worlds='|W|<=3', domain='|D|<=3', operands='letters, negated letter, repeated '
                     'letter, binary compounds', quantifier_bodies='Fx, ~Fx, Fx&Ga, Rxa'
                     + (', Rxx, ExRxy, Fxv~Fx' if thorough else ''),
-                    frame_rules='all sets of access pairs over <=3 worlds (2 worlds for '
-                    'non-representative logics in the quick tier)'),
+                    frame_rules='all sets of access pairs over <=3 worlds, every world carrying a sentence (2 worlds for '
+                    'non-representative logics in the quick tier) and, for non-serial logics, over 3 worlds named '
+                    'by access nodes only'),
         functions_encoded=['<logic>.Rules.<Rule>._get_targets/_get_node_targets/_get_sdw_targets '
                            '(run, output encoded)', 'proof.helpers.AdzHelper target format',
                            'proof.rules.access.*', 'Tableau.step (frame-rule fixpoint)'],
@@ -670,8 +675,9 @@ def replay(data):
         d = True if fde_style else None
         tab = Tab(logic)
         branch = tab.branch()
-        for w in range(W):
-            branch.append(sdwnode(Atomic(w, 0), d, w))
+        if not data.get('bare'):
+            for w in range(W):
+                branch.append(sdwnode(Atomic(w, 0), d, w))
         for (i, j) in data['chosen'] or ():
             branch.append(anode(i, j))
         n = 0
@@ -681,10 +687,16 @@ def replay(data):
                      if x.get('world1') is not None and x.get('world2') is not None)
         frame = spec.logic_info(data['logic'])['frame']
         if frame == 'serial':
+            chosen = [tuple(p) for p in data['chosen'] or ()]
             worlds = {w for p in got for w in p} | set(range(W))
             ok = all(any((w, v) in got for v in worlds) for w in range(W))
-            return not ok, f'serial: pairs {got}'
-        want = sorted(spec.closure(frame, set(range(W)), [tuple(p) for p in data['chosen'] or ()]))
+            for (u, v) in set(got) - set(chosen):
+                # an added pair must lead from a world without a chosen successor to a fresh world
+                if v in range(W) or any(c[0] == u for c in chosen):
+                    ok = False
+            return not ok, f'serial: chosen {chosen} -> pairs {got}'
+        base = set(range(W)) if not data.get('bare') else {w for p in data['chosen'] or () for w in p}
+        want = sorted(spec.closure(frame, base, [tuple(p) for p in data['chosen'] or ()]))
         return got != want, f'{data["logic"]}: chosen {data["chosen"]} -> {got}, required {want}'
     rulecls = next(r for r in logic.Rules.all() if r.name == data['rule'])
     node = node_from_json(data['node'])
